@@ -47,6 +47,12 @@ func (node *tagCycleNode) Execute(ctx *ExecutionContext, writer TemplateWriter) 
 			return err
 		}
 
+		// A cycle value never holds a cycle value (a cycle named like one of its own
+		// arguments would end up referring to itself): take what that one stands for.
+		if inner, ok := val.Interface().(*tagCycleValue); ok {
+			val = inner.value
+		}
+
 		t.value = val
 
 		if !t.node.silent {
